@@ -11,6 +11,10 @@ def kinds_str(prog):
 
 def replay_case(case, oracle):
     """Re-execute one recorded case without the explorer and apply the oracle."""
+    if case.get("long_run"):
+        r = _long_run_task((case["long_run"][0], case["long_run"][1], case["p"]))
+        return {"long_run": case["long_run"], "result": {k: (list(v) if isinstance(v, tuple) else v) for k, v in r.items()},
+                "violations": [k for k in ("unsat", "mism", "wrong") if r.get(k)]}
     if case.get("real"):
         from .. import e1
         e1.bind_real_worker(case["real"])
@@ -68,3 +72,60 @@ def real_backend_sweeps(ctx, oracle_path, modes):
     for mod, p in e1.REAL_BACKENDS.items():
         e1.sweep(ctx, E.depth1_programs(include_fxp=True), [(2, p, E.D(2))] + ([(3, p, E.D(3))] if ctx.thorough else []), oracle_path, modes=modes, real=mod)
         e1.sweep(ctx, E.huge_programs(), [(16, p, E.huge_lattice(p))], oracle_path, modes=modes, real=mod)
+
+
+def _long_run_task(t):
+    """One LONG straight-line run (more than 65535 variables and constraints): counters, tables or caches that
+    overflow / wrap / get recycled after many operations show up as an unsatisfied constraint, a value that differs
+    from its wire, or a value that differs from the plain computation."""
+    n_ops, bitlen, p = t
+    H.bind(p)
+    H.R.p = p
+    H.reset(bitlength=bitlen)
+    rt, B = H.rt, H.boolean
+    out = {"unsat": None, "mism": None, "wrong": None, "ops": 0, "vars": 0, "cons": 0}
+    acc, ref = rt.PrivVal(1), 1
+    one = B.PrivValBool(1)
+    for i in range(n_ops):
+        c0 = len(H.R.cons)
+        k = i % 7
+        if i % 211 == 210:
+            acc, ref = acc % 5 + 1, ref % 5 + 1
+        elif i % 97 == 96:
+            c = (acc == ref)
+            acc = H.branching.if_then_else(c, acc, 0)
+        elif i % 50 == 49:
+            acc, ref = (acc + k) * one.lc - k, ref
+        elif i % 3 == 0:
+            acc, ref = acc * (one.lc + 0), ref
+        else:
+            acc, ref = (acc + k) - k, ref
+        bad = H.R.unsatisfied(c0)
+        if bad and out["unsat"] is None:
+            out["unsat"] = (i, bad[:2])
+        if acc.value != ref and out["wrong"] is None:
+            out["wrong"] = (i, acc.value, ref)
+        if i % 997 == 0 or i == n_ops - 1:
+            mm = H.value_wire_mismatches(acc)
+            if mm and out["mism"] is None:
+                out["mism"] = (i, str(mm[0])[:120])
+    out["ops"], out["vars"], out["cons"] = n_ops, len(H.R.vars), len(H.R.cons)
+    return out
+
+
+def long_run(ctx, klass):
+    """klass: which of 'unsat' / 'mism' the calling check owns ('wrong' goes with C05)."""
+    from .. import common
+    n_ops = 600000 if ctx.thorough else 160000
+    r = common.pool_map(_long_run_task, [(n_ops, 8, REC.BN128), (1000, 8, REC.BN128)], force_fork=True, procs=2)[0]
+    ctx.cov["long_run"] = {"operations": r["ops"], "variables": r["vars"], "constraints": r["cons"]}
+    ctx.cov["executions"] = ctx.cov.get("executions", 0) + 1
+    ctx.cov["transitions"] = ctx.cov.get("transitions", 0) + r["ops"]
+    if r.get(klass):
+        text = {"unsat": "constraints %s emitted by operation #%d of a %d-operation run are not satisfied by the recorded witness",
+                "mism": "after operation #%d of a %d-operation run the value differs from its wire: %s",
+                "wrong": "after operation #%d of a %d-operation run the value is %s, the plain computation gives %s"}[klass]
+        v = r[klass]
+        args = {"unsat": (v[1], v[0], r["ops"]), "mism": (v[0], r["ops"], v[1]), "wrong": (v[0], r["ops"]) + tuple(v[1:])}[klass]
+        ctx.violation({"klass": {"unsat": "unsat", "mism": "value!=wire", "wrong": "wrong-value"}[klass], "via": "long-run"},
+                      {"long_run": [r["ops"], 8], "p": REC.BN128}, text % args)
